@@ -228,7 +228,12 @@ theorem one_eq (signed : Bool) (m : ModeOne) (b : Nat)
 
 /-! ### every block -/
 
-theorem decodeBlock_eq (signed : Bool) (b : Nat) : Bc6.decodeBlock signed b = Bc6Spec.decodeBlock signed b := by
+/-- for every block: the mode the code selects, the record the spec selects, and where the header starts -/
+theorem dispatch (b : Nat) :
+    match (extractMode b).1 with
+    | .two m => Bc6Spec.modeOf b = some (recTwo m) ∧ extractMode b = (.two m, b >>> (recTwo m).modeBits)
+    | .one m => Bc6Spec.modeOf b = some (recOne m) ∧ extractMode b = (.one m, b >>> 5)
+    | .invalid => Bc6Spec.modeOf b = none := by
   have hx : b % 32 < 32 := Nat.mod_lt _ (by decide)
   have hd := dispatchOk_true (b % 32) hx
   have h1 := extractMode_low5 b
@@ -236,22 +241,30 @@ theorem decodeBlock_eq (signed : Bool) (b : Nat) : Bc6.decodeBlock signed b = Bc
   have h3 := modeOf_low5 b
   have h4 : b % 32 % 4 = b % 4 := by omega
   unfold dispatchOk at hd
-  rw [h4] at hd
-  cases hm : (extractMode (b % 32)).1 with
+  rw [h4, ← h1] at hd
+  cases hm : (extractMode b).1 with
   | two m =>
-    rw [hm] at hd h1
+    rw [hm] at hd
     simp only [Bool.and_eq_true, decide_eq_true_eq] at hd
-    refine two_eq signed m b ?_ (h3.trans hd.1)
-    rw [← hd.2, ← h2, ← h1]
+    refine ⟨h3.trans hd.1, ?_⟩
+    rw [← hd.2, ← h2, ← hm]
   | one m =>
-    rw [hm] at hd h1
+    rw [hm] at hd
     simp only [Bool.and_eq_true, decide_eq_true_eq] at hd
-    refine one_eq signed m b ?_ (h3.trans hd.1)
-    rw [← hd.2, ← h2, ← h1]
+    refine ⟨h3.trans hd.1, ?_⟩
+    rw [← hd.2, ← h2, ← hm]
   | invalid =>
-    rw [hm] at hd h1
+    rw [hm] at hd
     simp only [decide_eq_true_eq] at hd
-    have hs : Bc6Spec.modeOf b = none := h3.trans hd
-    simp only [Bc6.decodeBlock, h1, Bc6Spec.decodeBlock, hs]
+    exact h3.trans hd
+
+theorem decodeBlock_eq (signed : Bool) (b : Nat) : Bc6.decodeBlock signed b = Bc6Spec.decodeBlock signed b := by
+  have hd := dispatch b
+  cases hm : (extractMode b).1 with
+  | two m => rw [hm] at hd; exact two_eq signed m b hd.2 hd.1
+  | one m => rw [hm] at hd; exact one_eq signed m b hd.2 hd.1
+  | invalid =>
+    rw [hm] at hd
+    simp only [Bc6.decodeBlock, hm, Bc6Spec.decodeBlock, hd]
 
 end Dds.Bc6
